@@ -30,12 +30,20 @@ pub(crate) fn scan_dimen<S: TexlangState>(
             // TeX.2021.449
             use super::integer::InternalNumber;
             match super::integer::parse_internal_number(input, first_token, command_ref)? {
-                InternalNumber::Integer(i) => (negative * i.signum(), i.abs(), Scaled::ZERO),
+                // The absolute value of i32::MIN doesn't fit in an i32. Any integer this large
+                // results in a dimension that's too large, so we can saturate.
+                InternalNumber::Integer(i) => (
+                    negative * i.signum(),
+                    i.checked_abs().unwrap_or(i32::MAX),
+                    Scaled::ZERO,
+                ),
+                // Registers can hold i32::MIN after arithmetic wraps around.
+                // As when parsing integers, negating this value wraps.
                 InternalNumber::Dimen(d) => {
-                    return Ok(d * negative);
+                    return Ok(d.wrapping_mul(negative));
                 }
                 InternalNumber::Glue(g) => {
-                    return Ok(g.width * negative);
+                    return Ok(g.width.wrapping_mul(negative));
                 }
             }
         }
@@ -149,9 +157,12 @@ pub(crate) fn scan_and_apply_units<S: TexlangState>(
             }
         };
         if let Some(v) = v_or {
-            let adjusted_fractional_part = v
-                .xn_over_d(fractional_part.0, Scaled::ONE.0)
-                .expect("n<d=Scaled::ONE, so overflow can't occur");
+            // If v is a valid dimension this can't overflow because n<=d=Scaled::ONE.
+            // But registers can hold values larger than the maximum dimension.
+            let adjusted_fractional_part = match v.xn_over_d(fractional_part.0, Scaled::ONE.0) {
+                Ok(adjusted_fractional_part) => adjusted_fractional_part,
+                Err(_) => return handle_overflow(input, first_token, v < Scaled::ZERO),
+            };
             return match v.nx_plus_y(integer_part, adjusted_fractional_part.0) {
                 Ok(s) => Ok(s),
                 Err(_) => handle_overflow(input, first_token, v < Scaled::ZERO),
